@@ -15,7 +15,13 @@ pub fn worker(ctx: &Ctx, wc: WorkerCtx, _extra: &[String]) {
 
 /// child-process entry: successive terminal objects on one pty device number (real system calls)
 pub fn successive_main() {
-    match tc::successive_terminals_check() {
+    let both = tc::successive_terminals_check().and_then(|(r1, mut p1)| {
+        tc::descriptor_placement_check().map(|(r2, p2)| {
+            p1.extend(p2);
+            (r1 + r2, p1)
+        })
+    });
+    match both {
         Ok((runs, problems)) => {
             let ps: Vec<Value> = problems.iter().map(|(k, w)| json!([k, w])).collect();
             println!("SUCCESSIVE {}", json!({"runs": runs, "problems": ps}));
@@ -32,6 +38,25 @@ fn successive_in_child() -> Result<Value, String> {
         if let Some(rest) = line.strip_prefix("SUCCESSIVE ") {
             return serde_json::from_str::<Value>(rest).map_err(|e| format!("{e}"));
         }
+    }
+    // no summary: the child died. If it died inside a descriptor placement the library crashed the process on a
+    // valid descriptor, which is a verdict about the library; anywhere else it is a machinery error.
+    let mut problems: Vec<Value> = vec![];
+    let mut open: Option<String> = None;
+    for line in text.lines() {
+        if let Some(rest) = line.strip_prefix("PROBLEM ") {
+            if let Ok(v) = serde_json::from_str::<Value>(rest) {
+                problems.push(v);
+            }
+        } else if let Some(rest) = line.strip_prefix("PLACEMENT-BEGIN ") {
+            open = Some(rest.to_string());
+        } else if line.starts_with("PLACEMENT-END") {
+            open = None;
+        }
+    }
+    if let Some(what) = open {
+        problems.push(json!(["placement:crash", format!("{what}: the process was aborted during the session ({})", out.status)]));
+        return Ok(json!({"runs": 0, "problems": problems}));
     }
     Err(format!("successive-terminals child produced no summary (status {})", out.status))
 }
